@@ -11,8 +11,11 @@ import (
 	"bytes"
 	"fmt"
 	"math"
+	"os"
 	"reflect"
 	"sort"
+	"strconv"
+	"strings"
 	"testing"
 )
 
@@ -90,10 +93,14 @@ func TestGovcBounded(t *testing.T) {
 					err = NewDecoder(&buf).Decode(back.Interface())
 				}
 			}
+			cls := family + "-" + name
+			if strings.HasPrefix(family, "one-cause:") {
+				cls = strings.TrimPrefix(family, "one-cause:") // one root cause whatever the entry point
+			}
 			if err != nil {
-				record("round-trip-error-"+family+"-"+name, fmt.Sprintf("%#v: text %.300q: %v", v, text, err))
+				record("round-trip-error-"+cls, fmt.Sprintf("%#v: text %.300q: %v", v, text, err))
 			} else if !reflect.DeepEqual(back.Elem().Interface(), v) {
-				record("round-trip-differs-"+family+"-"+name, fmt.Sprintf("%#v: text %.300q decodes to %#v", v, text, back.Elem().Interface()))
+				record("round-trip-differs-"+cls, fmt.Sprintf("%#v: text %.300q decodes to %#v", v, text, back.Elem().Interface()))
 			}
 		}
 	}
@@ -127,6 +134,41 @@ func TestGovcBounded(t *testing.T) {
 				roundTrip("float32-map-value", map[string]float32{"k": h})
 				roundTrip("float32-ptr", &h)
 			}
+		}
+	}
+	// float32 values that sit next to a rounding boundary of float64 (double rounding shows here), plus a seeded sample
+	f32bits := []uint32{0x15ae43fd, 0x95ae43fd, 0x00000001, 0x007fffff, 0x00800000, 0x7f7fffff, 0x3f800001, 0x4b800001, 0x5e7fffff}
+	seed := uint32(12345)
+	if sd, err := strconv.Atoi(os.Getenv("VERIF_SEED")); err == nil {
+		seed += uint32(sd)
+	}
+	samples := 20000
+	if os.Getenv("GOVC_TIER") == "thorough" {
+		samples = 400000
+	}
+	for i := 0; i < samples; i++ {
+		seed = seed*1664525 + 1013904223
+		f32bits = append(f32bits, seed)
+	}
+	for i, b := range f32bits {
+		h := math.Float32frombits(b)
+		if math.IsInf(float64(h), 0) || h != h {
+			continue
+		}
+		if i < 9 {
+			roundTrip("float32", h)
+			roundTrip("float32-slice", []float32{h})
+			continue
+		}
+		// the sample goes through Marshal/Unmarshal only
+		n++
+		text, err := Marshal(h)
+		var back float32
+		if err == nil {
+			err = Unmarshal(text, &back)
+		}
+		if err != nil || back != h {
+			record("round-trip-differs-float32-Marshal", fmt.Sprintf("float32 bits %#x: text %s decodes to bits %#x (%v)", b, text, math.Float32bits(back), err))
 		}
 	}
 	// byte slices: every length 0..9 and a few long ones, all byte classes
@@ -180,6 +222,18 @@ func TestGovcBounded(t *testing.T) {
 	roundTrip("array-zero-length", [0]int{})
 	roundTrip("iface-natural", []interface{}{nil, true, false, 1.5, -2.0, 1e21, "s", []interface{}{}, map[string]interface{}{}, map[string]interface{}{"a": []interface{}{map[string]interface{}{"b": nil}}}})
 	roundTrip("iface-map", map[string]interface{}{"n": nil, "f": 0.1, "s": "\"", "l": []interface{}{1.0, "2"}, "m": map[string]interface{}{"": ""}})
+	// a struct whose only field is a pointer is stored directly in an interface word: the pointer depths 1 and 2
+	{
+		n7 := 7
+		p7 := &n7
+		roundTrip("only-field-pointer-by-value", struct{ P *int }{p7})
+		roundTrip("one-cause:only-field-double-pointer-by-value", struct{ P **int }{&p7})
+		roundTrip("only-field-double-pointer-by-pointer", &struct{ P **int }{&p7})
+		roundTrip("double-pointer-field-after-another", struct {
+			A int
+			P **int
+		}{1, &p7})
+	}
 	// structs
 	str := "y\n"
 	i7 := 7
@@ -230,5 +284,5 @@ func TestGovcBounded(t *testing.T) {
 	for _, k := range ks {
 		fmt.Printf("BOUNDED-CLASS %s example: %s\n", k, classes[k])
 	}
-	fmt.Printf("BOUNDED-OK round trip of non-integer, non-string values: %d float64 seeds with neighbours (and as float32) in 11 positions, byte slices of length 0..9 over 8 byte classes plus long ones, booleans, integer-keyed maps, arrays, JSON-natural interfaces, nested structs with embedded/omitempty/string-tagged/pointer fields, through Marshal, MarshalIndent, MarshalNoEscape, Encoder/Decoder (plain and indented): %d round trips, %d disagreement classes\n", len(f64s), n, len(ks))
+	fmt.Printf("BOUNDED-OK round trip of non-integer, non-string values: float32 boundary witnesses and a seeded sample, %d float64 seeds with neighbours (and as float32) in 11 positions, byte slices of length 0..9 over 8 byte classes plus long ones, booleans, integer-keyed maps, arrays, JSON-natural interfaces, nested structs with embedded/omitempty/string-tagged/pointer fields, through Marshal, MarshalIndent, MarshalNoEscape, Encoder/Decoder (plain and indented): %d round trips, %d disagreement classes\n", len(f64s), n, len(ks))
 }
